@@ -14,7 +14,7 @@ const ENV: &[&str] = &["X = 2", "Y = 3.5", "Z = 0", "W = 0 - 1.5", "A$ = \"HI\""
 
 fn leaf(rng: &mut Rng) -> String {
     match rng.below(12) {
-        0..=3 => format!("n{}", enc_f64(rng.pick(&[0.0, 1.0, 2.0, 3.0, 0.5, 10.0, 7.0, 1e10, 0.1, 255.0, 1e-5]))),
+        0..=3 => format!("n{}", enc_f64(rng.pick(&[0.0, 1.0, 2.0, 3.0, 0.5, 10.0, 7.0, 1e10, 0.1, 255.0, 1e-5, 1e-16, 2.220446049250313e-16, 1e-300, 5e-324, 0.3, 0.2]))),
         4..=6 => format!("v{}", hex(rng.pick(&["X", "Y", "Z", "W", "U"]))),
         7..=8 => format!("s{}", hex(rng.pick(&["", "HI", "A", "hi", "HI THERE", "é"]))),
         _ => format!("v{}", hex(rng.pick(&["A$", "B$", "C$", "U$"]))),
@@ -112,6 +112,16 @@ pub fn cases(rng: &mut Rng, tier: &str, driver: &Driver) -> (Vec<Case>, bool) {
             trees.push((format!("b{} u{} v58 n4000000000000000", b, u), "binary-over-unary"));
             trees.push((format!("b{} v59 u{} v58", b, u), "binary-over-unary"));
             trees.push((format!("u{} v4124", u), "unary-string"));
+        }
+    }
+    // truthiness at the edge: tiny non-zero operands, rounding residue, empty / blank strings, in every logical context
+    let tiny = ["n3c9cd2b297d889bc", "n3cb0000000000000", "n0000000000000001", "n01a56e1fc2f8f359", "bsub badd n3fb999999999999a n3fc999999999999a n3fd3333333333333", "bsub bsub n3ff0000000000000 n3feccccccccccccd n3fb999999999999a", "s", "s20", "v4224"];
+    for x in tiny {
+        for ctx in ["unot {x}", "band {x} n3ff0000000000000", "band n3ff0000000000000 {x}", "bor {x} n0000000000000000", "bor n0000000000000000 {x}", "unot p {x}", "bne {x} n0000000000000000"] {
+            if ctx.starts_with("bne") && x.starts_with('s') || ctx.starts_with("bne") && x.starts_with('v') {
+                continue;
+            }
+            trees.push((ctx.replace("{x}", x), "truthiness-edge"));
         }
     }
     let n = if tier == "thorough" { 40_000 } else { 3_000 };
